@@ -41,8 +41,8 @@ PROPS = {
     'C07': dict(k2=[('walk', {'res', 'holder'})], k1=['verdict', 'struct', 'forest'], k3=['substate', 'methods']),
     'C08': dict(k1s=True, k2=[('data', {'res', 'trace', 'holder'}), ('walk', {'holder', 'trace'})], k1=[], k3=['types']),
     'C09': dict(k2=[('pair', ALL)], k1=[], direct=['pair'], k4=True),
-    'C10': dict(names=True, k2=[('conv', {'res', 'holder', 'c'})], k1=[], k3=['types']),
-    'C11': dict(names=True, k2=[('data', {'res', 'holder'}), ('abandon', {'res', 'holder'})], k1=[], k3=['types']),
+    'C10': dict(k1s=True, names=True, k2=[('conv', {'res', 'holder', 'c'})], k1=[], k3=['types']),
+    'C11': dict(names=True, k2=[('data', {'res', 'holder'}), ('abandon', {'res', 'holder'})], k1=[], k3=['types'], k4=True),
     'C12': dict(names=True, k2=[('guards', {'res'}), ('around', {'res'}), ('walk', {'res'})], k1=[], k4=True, k3=['rename']),
     'C13': dict(k2=[], k1=['verdict', 'mutants'], k3=['reject']),
     'C14': dict(names=True, k2=[], k1=['verdict', 'struct'], k3=['compile']),
@@ -51,7 +51,7 @@ PROPS = {
                               ('abandon', {'c', 'p'}), ('around', {'c', 'p'})], k1=[]),
     'C17': dict(k2=[], k1=['struct'], k3=['nostd']),
     'C18': dict(k1s=True, k2=[('names', ALL)], k1=[], k3=['rename']),
-    'C19': dict(k2=[('abandon', ALL), ('refuse', ALL)], k1=[]),
+    'C19': dict(k1s=True, k2=[('abandon', ALL), ('refuse', ALL)], k1=[]),
 }
 
 
